@@ -75,9 +75,11 @@ impl ScanOperator {
             return;
         }
 
-        // Get nodes, using versioned method if tx context is set
+        // Candidates: with a tx context every node that has a version (the filter below
+        // keeps what this snapshot, and this transaction's own work, can see)
         let all_ids = match &self.label {
             Some(label) => self.store.nodes_by_label(label),
+            None if self.viewing_epoch.is_some() => self.store.all_node_ids(),
             None => self.store.node_ids(),
         };
 
